@@ -440,6 +440,55 @@ def main():
                 for e in analyse_loop(fn, lp, summ, const_true_names(fn, enclosing)):
                     L.add(*e)
                 loops.append(L)
+    # thread pools other than prange: `joblib.Parallel(..)(joblib.delayed(f)(args) for i in range(n))` runs the calls
+    # concurrently (the tree builders release the GIL).  One "iteration" = one call; its effects are the arguments that `f`
+    # may mutate (interprocedural summary): owned when the argument is subscripted by the comprehension variable
+    # (`rng_states[i]`), shared when a whole array is handed to every call.
+    for mod, tree in trees.items():
+        for fn in [n for n in ast.walk(tree) if isinstance(n, (ast.FunctionDef, ast.AsyncFunctionDef))]:
+            k = 0
+            for n in ast.walk(fn):
+                if not (isinstance(n, ast.Call) and isinstance(n.func, ast.Call) and call_name(n.func) == "Parallel"
+                        and len(n.args) == 1 and isinstance(n.args[0], ast.GeneratorExp)):
+                    continue
+                gen = n.args[0]
+                # connect_graph's pool is outside C05's quantifier (build / prepare / query / update); property C20 runs it with
+                # n_jobs=None and says so in its assumptions
+                L = Loop("%s.%s@joblib#%d" % (mod, fn.name, k),
+                         "connect" if mod == "graph_utils" else "index" if mod in INDEX_MODULES else "metric"); k += 1
+                elt = gen.elt
+                ok = (isinstance(elt, ast.Call) and isinstance(elt.func, ast.Call) and call_name(elt.func) == "delayed"
+                      and len(elt.func.args) == 1 and len(gen.generators) == 1)
+                if not ok:
+                    L.add("write", "unrecognised joblib task " + dump(elt)[:60], "unknown")
+                    loops.append(L); continue
+                vs = {x.id for x in ast.walk(gen.generators[0].target) if isinstance(x, ast.Name)}
+                callee = call_name(ast.Call(func=elt.func.args[0], args=[], keywords=[]))
+                if callee not in all_funcs or len(all_funcs[callee]) != 1:
+                    L.add("write", "task %s: unknown or ambiguous callee" % callee, "unknown")
+                    loops.append(L); continue
+                pnames = [a_.arg for a_ in all_funcs[callee][0].args.args]
+                handed = {}                                  # parameter position -> argument expression
+                for i_, a_ in enumerate(elt.args):
+                    handed[i_] = a_
+                for kw in elt.keywords:
+                    if kw.arg in pnames:
+                        handed[pnames.index(kw.arg)] = kw.value
+                    else:
+                        L.add("write", "task %s: keyword %s" % (callee, kw.arg), "unknown")
+                for pos in sorted(summ.get(callee, ())):
+                    if pos not in handed:
+                        continue
+                    a = handed[pos]
+                    txt = ast.unparse(a)
+                    if isinstance(a, ast.Subscript) and isinstance(a.value, ast.Name) and any(
+                            isinstance(x, ast.Name) and x.id in vs for x in ast.walk(a.slice)):
+                        L.add("write", "%s <- %s()" % (txt, callee), "loopVar")
+                    else:
+                        L.add("write", "%s <- %s()" % (txt, callee), "shared")
+                if not L.effects:
+                    L.add("read", "task %s mutates none of its arguments" % callee, "loopVar")
+                loops.append(L)
     lines = ["import PynnVerif.Model.Footprint",
              "/-! GENERATED by harness/translate_prange.py from /repo — data only, do not edit. -/",
              "namespace Pynn.Gen", "open Pynn.FP Pynn.FP.Own Pynn.FP.Kind", "",
